@@ -105,6 +105,8 @@ def cases(shard):
             for tr in order:
                 if tr[1] == ':instance' and not small:
                     per.append([(p, k) for p in [[]] for k in (0, 1)])
+                elif shard.get('pool') == 'wide':
+                    per.append([(p, k) for p in pushopts for k in (0, 1)])
                 else:
                     per.append([(p, k) for p in pushopts for k in (0, 1, 2)])
             for marks in itertools.product(*per):
